@@ -200,6 +200,54 @@ def wiring(ck, mod):
         wd.DirWatcher = real
 
 
+def start_wiring(ck, mod):
+    """DigitalRFMirror.start (modular): the files that already exist are taken from the listing (property files of the selected kinds
+    always; data and metadata files of the window unless ignore_existing) and every one of them is handed to every handler with the
+    time filter off - the listing has already applied the window, including the metadata file in force at the start time."""
+    import types
+    M = mod.DigitalRFMirror
+    ck.add_function(pyload.source_info(mod, "DigitalRFMirror.start"))
+    real = {k: mod.__dict__[k] for k in ("list_drf", "os", "print") if k in mod.__dict__}
+    for ignore in (False, True):
+        calls, disp = [], []
+
+        def ilsdrf(path, **kw):
+            calls.append((path, dict(kw)))
+            if kw.get("include_drf") or kw.get("include_dmd"):
+                return iter(["/s/ch/sub/rf@5.000.h5", "/s/ch/metadata/sub/metadata@1.h5"])
+            return iter(["/s/ch/drf_properties.h5"])
+        mod.list_drf = types.SimpleNamespace(ilsdrf=ilsdrf)
+        mod.os = types.SimpleNamespace(path=types.SimpleNamespace(isdir=lambda p: True))
+        mod.__dict__["print"] = lambda *a, **k: None
+
+        def mkh(i):
+            return types.SimpleNamespace(dispatch=lambda ev, match_time=True, i=i: disp.append((i, ev.src_path, type(ev).__name__, match_time)))
+        self_ = types.SimpleNamespace(observer=types.SimpleNamespace(start=lambda: disp.append(("observer.start",))), method="copy", src="/s", dest="/d",
+                                      include_drf=True, include_dmd=True, starttime="S", endtime="E", ignore_existing=ignore, event_handlers=[mkh(0), mkh(1)])
+        try:
+            try:
+                M.start(self_)
+                err = None
+            except Exception as e:
+                err = e
+        finally:
+            for k, v in real.items():
+                mod.__dict__[k] = v
+            if "print" not in real:
+                mod.__dict__.pop("print", None)
+        tag = "ignore_existing=%s" % ignore
+        files = ["/s/ch/drf_properties.h5"] + ([] if ignore else ["/s/ch/sub/rf@5.000.h5", "/s/ch/metadata/sub/metadata@1.h5"])
+        want = [("observer.start",)] + [(i, f, "FileCreatedEvent", False) for f in files for i in (0, 1)]
+        ck.struct("m.start.existing_files_to_every_handler_unfiltered", err is None and disp == want, "%s: dispatched %s (error %r), contract %s" % (tag, disp, err, want), {"attr": tag})
+        okl = len(calls) == (1 if ignore else 2) and calls[0][1].get("include_drf") is False and calls[0][1].get("include_dmd") is False \
+            and calls[0][1].get("include_drf_properties") is True and calls[0][1].get("include_dmd_properties") is True
+        if not ignore and len(calls) == 2:
+            k = calls[1][1]
+            okl = okl and k.get("starttime") == "S" and k.get("endtime") == "E" and k.get("include_drf") is True and k.get("include_dmd") is True \
+                and k.get("include_drf_properties") is False and k.get("include_dmd_properties") is False
+        ck.struct("m.start.lists_selected_kinds_and_window", okl, "%s: listing calls %s" % (tag, calls), {"attr": tag})
+
+
 def replay_mirror(o, model):
     r = replay_py.run_driver("mirror_history.py", {"seed": 17, "cases": 40, "max_failures": 1})
     if r["failures"]:
@@ -213,6 +261,7 @@ def run(tier, seed, replay=None):
     mod = pyload.module("mirror", symbolic=False)
     mirror_effects(ck, mod)
     wiring(ck, mod)
+    start_wiring(ck, mod)
     ck.replayers["m."] = replay_mirror
     ck.discharge() if ck.obls else None
     n = 150 if tier == "thorough" else 25
